@@ -24,7 +24,7 @@ import numpy as np
 warnings.filterwarnings('ignore')
 
 from rsatoolbox.data import Dataset, TemporalDataset  # noqa: E402
-from rsatoolbox.rdm import calc_rdm, calc_rdm_movie  # noqa: E402
+from rsatoolbox.rdm import calc_rdm, calc_rdm_movie, calc_rdm_unbalanced  # noqa: E402
 import rsatoolbox.rdm as _rdm  # noqa: E402
 import rsatoolbox.rdm.calc as _calc  # noqa: E402
 
@@ -105,7 +105,7 @@ GRP_MAPS = {'int': [1, 2, 3], 'str': ['g1', 'g2', 'g3']}
 DTYPES = {'float64': 1, 'float32': 1, 'int64': 1, 'int32': 1}
 NARROW = {'int8': 40, 'uint8': 60, 'int16': 5000, 'int32': 20000}
 BASE = dict(cont='list', lab='int', dtype='float64', order='C', extra=True, scale=1, flab='int',
-            noise='array', api='calc_rdm', wrap=False)
+            noise='array', api='calc_rdm', wrap=False, tdesc='time', window=False)
 
 
 def flavour(rng, *, narrow=False, nonneg=True):
@@ -119,7 +119,9 @@ def flavour(rng, *, narrow=False, nonneg=True):
              flab=list(FOLD_MAPS)[rng.integers(3)],
              noise=['array', 'list'][rng.integers(2)],
              api=['calc_rdm', 'direct'][rng.integers(2)],
-             wrap=bool(rng.integers(4) == 0))      # a single dataset passed as a one-element list
+             wrap=bool(rng.integers(4) == 0),      # a single dataset passed as a one-element list
+             tdesc=['time', 'tp'][int(rng.integers(3) == 0)],   # movie: time_descriptor= another descriptor
+             window=bool(rng.integers(4) == 0))    # movie: subset_time(t_from, t_to) before the call
     if narrow:
         names = [n for n in NARROW if nonneg or n != 'uint8']
         f['dtype'] = names[rng.integers(len(names))]
@@ -162,17 +164,23 @@ def make_dataset(lab, x, ext, fl, *, subj=3, fold=None):
                    channel_descriptors={'ch': _conv(list(range(m.shape[1])), fl)})
 
 
-def make_temporal(lab, x3, ext, tv, fl, *, subj=3):
+def make_temporal(lab, x3, ext, tv, fl, *, subj=3, fold=None):
     obs = {COND: np.array([_lab(k, fl) for k in lab])}     # time_as_observations needs arrays
     if fl['extra']:
         obs['grp'] = np.array([_grp(k, fl) for k in lab])
         obs['ext'] = np.array([int(e) for e in ext])
+    if fold is not None:
+        obs[FOLD] = np.array([FOLD_MAPS[fl['flab']][k - 1] for k in fold])
     a = np.array(x3, dtype=np.float64).transpose(1, 2, 0) * fl['scale']     # [t][o][c] -> o, c, t
     a = a.astype(fl['dtype'])
     a = np.asfortranarray(a) if fl['order'] == 'F' else np.ascontiguousarray(a)
+    tds = {'time': np.array(tv, dtype=float)}
+    if fl.get('tdesc', 'time') != 'time':
+        # the descriptor the movie is asked to run over is NOT 'time' (which every TemporalDataset has)
+        tds = {'time': np.arange(len(tv), dtype=float) * 100.0 + 7.0, fl['tdesc']: np.array(tv, dtype=float)}
     return TemporalDataset(a, descriptors={'subj': subj, 'task': 't'}, obs_descriptors=obs,
                            channel_descriptors={'ch': np.arange(a.shape[1])},
-                           time_descriptors={'time': np.array(tv, dtype=float)})
+                           time_descriptors=tds)
 
 
 def _prior(p):
@@ -186,41 +194,76 @@ def _noise(prec):
 # --------------------------------------------------------------------------------------------
 # calling the public API
 # --------------------------------------------------------------------------------------------
+CV_METHODS = ('crossnobis', 'poisson_cv')
+
+
+def _folds_noise(inp, fold):
+    """per-fold diagonal precisions as the library wants them: ordered like the sorted fold labels"""
+    used = sorted(set(fold))
+    return [np.diag(np.array(inp['fprec'][f - 1], dtype=float)) for f in used]
+
+
+def window_of(inp):
+    """flavour 'window': drop the earliest time point with subset_time(t_from, t_to) -> (t_from, t_to, kept indices)"""
+    tv = inp['tv']
+    order = sorted(range(len(tv)), key=lambda t: tv[t])
+    keep = order[1:]
+    return float(tv[keep[0]]), float(max(tv)), sorted(keep)
+
+
 def call_impl(inp, fl):
     """build the real objects for the abstract input ``inp`` and call the library"""
     mode, method = inp['mode'], inp['method']
     lam, w = _prior(inp['prior'])
     desc = COND if inp['useDesc'] else None
+    unbal = bool(inp.get('unbal'))
+    src = inp.get('foldsrc', 'none')
+    cvd = FOLD if src == 'explicit' else None
     if mode == 'single':
-        ds = make_dataset(inp['lab'], inp['x'], inp['ext'], fl)
+        ds = make_dataset(inp['lab'], inp['x'], inp['ext'], fl, fold=inp['fold'] if cvd else None)
+        if unbal:
+            return calc_rdm_unbalanced(ds, method=method, descriptor=desc, noise=_noise(inp['prec']), cv_descriptor=cvd,
+                                       prior_lambda=lam, prior_weight=w)
         return calc_rdm([ds] if fl.get('wrap') else ds, method=method, descriptor=desc, noise=_noise(inp['prec']),
-                        prior_lambda=lam, prior_weight=w, remove_mean=inp['rm'])
+                        cv_descriptor=cvd, prior_lambda=lam, prior_weight=w, remove_mean=inp['rm'])
     if mode == 'list':
-        d1 = make_dataset(inp['lab'], inp['x'], None, fl, subj=3)
-        d2 = make_dataset(inp['lab2'], inp['x2'], None, fl, subj=5)
+        d1 = make_dataset(inp['lab'], inp['x'], None, fl, subj=3, fold=inp['fold'] if cvd else None)
+        d2 = make_dataset(inp['lab2'], inp['x2'], None, fl, subj=5, fold=inp['fold2'] if cvd else None)
         n1, n2 = _noise(inp['prec']), _noise(inp['prec2'])
         if inp['prec'] == inp['prec2'] and fl['noise'] == 'array':
             noise = n1
         else:
             noise = [n1, n2]
         dsl = [d1, d2] if fl['cont'] == 'list' else (d1, d2)
-        return calc_rdm(dsl, method=method, descriptor=desc, noise=noise,
+        if unbal:
+            return calc_rdm_unbalanced(dsl, method=method, descriptor=desc, noise=noise, cv_descriptor=cvd,
+                                       prior_lambda=lam, prior_weight=w)
+        return calc_rdm(dsl, method=method, descriptor=desc, noise=noise, cv_descriptor=cvd,
                         prior_lambda=lam, prior_weight=w, remove_mean=inp['rm'])
     if mode == 'movie':
-        td = make_temporal(inp['lab'], inp['x3'], inp['ext'], inp['tv'], fl)
+        td = make_temporal(inp['lab'], inp['x3'], inp['ext'], inp['tv'], fl, fold=inp['fold'] if cvd else None)
+        tdesc = fl.get('tdesc', 'time')
         bins = None
         if inp['bins']:
             # each bin as an ndarray: bin_time formats the bins with np.array2string, plain lists are
             # outside its contract (AttributeError) and not something the property quantifies over
             bins = [np.array([float(inp['tv'][t - 1]) for t in b]) for b in inp['bins']]
-        return calc_rdm_movie(td, method=method, descriptor=desc, noise=_noise(inp['prec']),
-                              prior_lambda=lam, prior_weight=w, bins=bins)
+        elif fl.get('window'):
+            t_from, t_to, _ = window_of(inp)
+            td = td.subset_time(tdesc, t_from, t_to)
+        if inp.get('fprec'):
+            noise = _folds_noise(inp, _fold_of(inp))
+            if fl['noise'] == 'array':
+                noise = np.array(noise)
+        else:
+            noise = _noise(inp['prec'])
+        return calc_rdm_movie(td, method=method, descriptor=desc, noise=noise, cv_descriptor=cvd,
+                              prior_lambda=lam, prior_weight=w, time_descriptor=tdesc, bins=bins, unbalanced=unbal)
     if mode == 'cv':
         explicit = inp['foldsrc'] == 'explicit'
         ds = make_dataset(inp['lab'], inp['x'], None, fl, fold=inp['fold'] if explicit else None)
         if inp['fprec']:
-            used = sorted(set(inp['fold']))
-            noise = [np.diag(np.array(inp['fprec'][f - 1], dtype=float)) for f in used]
+            noise = _folds_noise(inp, inp['fold'])
             if fl['noise'] == 'array':
                 noise = np.array(noise)
         else:
@@ -257,6 +300,52 @@ def _pois_pair(ra, rb):
     return float(np.sum((la - lb) * (np.log(la) - np.log(lb))) / len(la))
 
 
+def _ub_matrix(ub, prior, n, scale=1):
+    """unbalanced correlation / poisson RDM from the pairs, factors, weights and statistics the specification
+    fixed per slot (calc_rdm_unbalanced: self(k) + self(l) - 2 cross(k,l)); returns (n x n values, n x n undefined)"""
+    kind, dd = ub['kind'], ub['dd']
+    lam, w = prior
+
+    def sim(st):
+        if kind == 'corr':
+            if st['aa'] == 0 or st['bb'] == 0:
+                return None
+            return st['ab'] / math.sqrt(st['aa'] * st['bb']) * st['n'] / 2.0
+        if kind == 'pois':
+            tot = 0.0
+            for xa, xb in st:
+                ra, rb = (xa / dd + lam * w) / (1 + w), (xb / dd + lam * w) / (1 + w)
+                tot += (rb - ra) * (math.log(ra) - math.log(rb))
+            return tot / 2.0
+        return float(st) * scale * scale / (dd * dd)
+
+    def slot(sl):
+        if not sl['pairs']:
+            return float('nan'), False
+        acc, bad = 0.0, False
+        for p in sl['pairs']:
+            v = sim(p['st'])
+            if v is None:
+                bad = True
+                continue
+            acc += v * p['f2'] / 2.0
+        return acc / (sl['wsum'][0] / sl['wsum'][1]), bad
+    rows = [r - 1 for r in ub['rows']]
+    nc = len(rows)
+    selfv = [slot(sl) for sl in ub['self']]
+    M = np.full((n, n), np.nan)
+    Un = np.zeros((n, n), dtype=bool)
+    k = 0
+    for a in range(nc):
+        for b in range(a + 1, nc):
+            cv, cb = slot(ub['cross'][k])
+            k += 1
+            v = selfv[a][0] + selfv[b][0] - 2 * cv
+            M[rows[a], rows[b]] = M[rows[b], rows[a]] = v
+            Un[rows[a], rows[b]] = Un[rows[b], rows[a]] = cb or selfv[a][1] or selfv[b][1]
+    return M, Un
+
+
 def expected_values(inp, out, scale=1):
     """exact expectation of the specification -> float matrix (n_rdm x n_pairs), nan where the
     specification says 'absent', plus a mask of entries the definition leaves undefined"""
@@ -267,6 +356,12 @@ def expected_values(inp, out, scale=1):
     vals = np.full((len(out['rdms']), npairs), np.nan)
     undef = np.zeros_like(vals, dtype=bool)
     for r, rd in enumerate(out['rdms']):
+        if rd.get('ub'):
+            M, Un = _ub_matrix(rd['ub'], _prior(inp['prior']), n, scale)
+            for k, (p, q) in enumerate(pairs):
+                vals[r, k], undef[r, k] = M[p, q], Un[p, q]
+            continue
+        fpairs = rd.get('pairs') or out.get('pairs') or []
         for k, (p, q) in enumerate(pairs):
             if method in ('euclidean', 'mahalanobis', 'crossnobis'):
                 e = rd['vec'][k]
@@ -285,14 +380,16 @@ def expected_values(inp, out, scale=1):
                     vals[r, k] = _pois_pair(ra, rb)
             elif method == 'poisson_cv':
                 rates = rd['rates']            # [fold][condition][channel]
+                if not rates[0][p] or not rates[0][q]:
+                    continue                   # a label this dataset does not have
                 tot = 0.0
-                for m, nn in out['pairs']:
+                for m, nn in fpairs:
                     la = np.array([a / b for a, b in rates[m - 1][p]])
                     lb = np.array([a / b for a, b in rates[m - 1][q]])
                     ta = np.array([a / b for a, b in rates[nn - 1][p]])
                     tb = np.array([a / b for a, b in rates[nn - 1][q]])
                     tot += float(np.sum((la - lb) * (np.log(ta) - np.log(tb))) / len(la))
-                vals[r, k] = tot / len(out['pairs'])
+                vals[r, k] = tot / len(fpairs)
     return vals, undef
 
 
@@ -412,6 +509,23 @@ def _tol(fl, exp_abs_max, mag=1.0):
     return base * max(1.0, exp_abs_max, mag)
 
 
+def _default_folds(lab):
+    seen = {}
+    f = []
+    for l in lab:
+        seen[l] = seen.get(l, 0) + 1
+        f.append(seen[l])
+    return f
+
+
+def _fold_of(inp, which=1):
+    """the fold descriptor of dataset 1 / 2 as the balanced estimators see it"""
+    lab = inp['lab'] if which == 1 else inp['lab2']
+    if inp.get('foldsrc', 'none') == 'explicit':
+        return inp['fold'] if which == 1 else inp['fold2']
+    return _default_folds(lab)
+
+
 def _sub_inputs(inp):
     """(labels, float data matrix, precision) of every partial RDM, as the definition sees them"""
     mode = inp['mode']
@@ -425,28 +539,89 @@ def _sub_inputs(inp):
     return [(inp['lab'], x3[[t - 1 for t in b]].mean(axis=0), inp['prec']) for b in bins]
 
 
+def kernel_unbal(method, lab, X, *, fold=None, prec=None, prior=(1.0, 0.1), use_desc=True):
+    """calc_rdm_unbalanced by its definition (complete data, weighting 'number'):
+    rdm(k,l) = self(k) + self(l) - 2 cross(k,l); a slot is the weighted mean of the pair kernels over its
+    admissible observation pairs (an observation with itself counts half and only without cross-validation;
+    with cross-validation pairs sharing a fold are excluded; without a fold descriptor a cross-validated method
+    treats every observation as its own fold); NaN when a slot is empty"""
+    X = np.asarray(X, dtype=float)
+    n, P = X.shape
+    lab = list(lab) if use_desc else list(range(n))
+    keys = list(dict.fromkeys(lab))
+    cv = fold is not None or method in CV_METHODS
+    fo = list(fold) if fold is not None else list(range(n))
+    N = None if prec is None else np.asarray(prec, dtype=float)
+    R = (X + prior[0] * prior[1]) / (1 + prior[1])
+
+    def sim(a, b):
+        if method in ('euclidean',) or (method in ('mahalanobis', 'crossnobis') and N is None):
+            return float(X[a] @ X[b])
+        if method in ('mahalanobis', 'crossnobis'):
+            return float(X[a] @ N @ X[b])
+        if method == 'correlation':
+            xa, xb = X[a] - X[a].mean(), X[b] - X[b].mean()
+            den = math.sqrt(float(xa @ xa) * float(xb @ xb))
+            return float('nan') if den == 0 else float(xa @ xb) / den * P / 2.0
+        return float(np.sum((R[b] - R[a]) * (np.log(R[a]) - np.log(R[b]))) / 2.0)      # poisson kernels
+
+    def slot(pairs):
+        num = den = 0.0
+        for a, b in pairs:
+            if cv and (a == b or fo[a] == fo[b]):
+                continue
+            f = 0.5 if a == b else 1.0
+            num += f * sim(a, b)
+            den += f * P
+        return float('nan') if den == 0 else num / den
+    mem = {k: [o for o in range(n) if lab[o] == k] for k in keys}
+    selfv = {k: slot([(a, b) for a in mem[k] for b in mem[k] if a <= b]) for k in keys}
+    res = {}
+    for i, k in enumerate(keys):
+        for l in keys[i + 1:]:
+            res[(k, l)] = selfv[k] + selfv[l] - 2 * slot([(a, b) for a in mem[k] for b in mem[l]])
+    return res
+
+
+def _keyed(kv, a, b):
+    return kv.get((a, b), kv.get((b, a), np.nan))
+
+
 def kernel_expected(inp, out, *, rm=None, scale=1):
     """the array-form kernels evaluated on the vector's data, laid out like out (n_rdm x n_pairs)"""
     method = inp['method']
     n = len(out['lab'])
     pairs = [(p, q) for p in range(n) for q in range(p + 1, n)]
     rm = inp['rm'] if rm is None else rm
+    prior = _prior(inp['prior'])
     if inp['mode'] == 'cv':
         fp = None
         if inp['fprec']:
             fp = {f: np.diag(np.array(inp['fprec'][f - 1], dtype=float)) for f in set(inp['fold'])}
         from_def = kernel_cv(method, inp['lab'], _fold_of(inp), np.array(inp['x'], dtype=float) * scale, rm=rm,
-                             prec=_noise(inp['prec']), fprec=fp, prior=_prior(inp['prior']))
+                             prec=_noise(inp['prec']), fprec=fp, prior=prior)
         return np.array([[from_def[(out['lab'][p], out['lab'][q])] for p, q in pairs]])
+    unbal = bool(inp.get('unbal'))
+    src = inp.get('foldsrc', 'none')
     res = []
-    for lab, X, prec in _sub_inputs(inp):
-        kv = kernel_array(method, lab, X * scale, use_desc=inp['useDesc'], rm=rm, prec=_noise(prec),
-                          prior=_prior(inp['prior']))
+    for r, (lab, X, prec) in enumerate(_sub_inputs(inp)):
+        which = 2 if (inp['mode'] == 'list' and r == 1) else 1
+        if unbal:
+            kv = kernel_unbal(method, lab, X * scale, fold=_fold_of(inp, which) if src == 'explicit' else None,
+                              prec=_noise(prec), prior=prior, use_desc=inp['useDesc'])
+        elif method in CV_METHODS:
+            fold = _fold_of(inp, which)
+            fp = None
+            if inp.get('fprec'):
+                fp = {f: np.diag(np.array(inp['fprec'][f - 1], dtype=float)) for f in set(fold)}
+            kv = kernel_cv(method, lab, fold, X * scale, rm=False, prec=_noise(prec), fprec=fp, prior=prior) \
+                if len(set(lab)) >= 1 else {}
+        else:
+            kv = kernel_array(method, lab, X * scale, use_desc=inp['useDesc'], rm=rm, prec=_noise(prec), prior=prior)
         row = []
         for p, q in pairs:
             if inp['useDesc']:
-                a, b = out['lab'][p], out['lab'][q]
-                row.append(kv.get((min(a, b), max(a, b)), np.nan))
+                row.append(_keyed(kv, out['lab'][p], out['lab'][q]))
             else:
                 row.append(kv[(p, q)])
         res.append(row)
@@ -454,20 +629,9 @@ def kernel_expected(inp, out, *, rm=None, scale=1):
         # RDM 2 is re-aligned on the (unique) labels of dataset 1
         pos = [inp['lab2'].index(l) for l in inp['lab']]
         kv = kernel_array(method, inp['lab2'], np.array(inp['x2'], dtype=float) * scale, use_desc=False, rm=rm,
-                          prec=_noise(inp['prec2']), prior=_prior(inp['prior']))
+                          prec=_noise(inp['prec2']), prior=prior)
         res[1] = [kv[(min(pos[p], pos[q]), max(pos[p], pos[q]))] for p, q in pairs]
     return np.array(res, dtype=float)
-
-
-def _fold_of(inp):
-    if inp['foldsrc'] == 'explicit':
-        return inp['fold']
-    seen = {}
-    f = []
-    for l in inp['lab']:
-        seen[l] = seen.get(l, 0) + 1
-        f.append(seen[l])
-    return f
 
 
 def kernel_crosscheck(vec):
@@ -494,14 +658,24 @@ def check_vector(vec, fl, pid='C01', *, diagnose=True):
     inp, out = vec['in'], vec['out']
     mode, method = inp['mode'], inp['method']
     wrapped = mode == 'single' and bool(fl.get('wrap'))
+    unbal = bool(inp.get('unbal'))
+    ub = '/unbalanced' if unbal else ''
     cl = 'a' if pid == 'C01' else ('c' if method == 'poisson_cv' else ('b' if inp.get('fprec') else 'a'))
+    if mode == 'movie' and fl.get('window') and not inp['bins'] and len(inp['tv']) >= 2:
+        # the movie of dataset.subset_time(t_from, t_to) is the stack restricted to the time points in the window
+        keep = window_of(inp)[2]
+        out = dict(out, rdms=[out['rdms'][t] for t in keep], time=[out['time'][t] for t in keep])
     exp, undef = expected_values(inp, out, fl['scale'])
     try:
         got = project(call_impl(inp, fl))
     except Exception as e:  # noqa: BLE001
-        key = f"{pid}/{cl}/raises/{type(e).__name__}/{mode}/{_desc_name(inp)}/{method}"
-        if mode == 'movie' and len(inp['x3'][0][0]) == 1:
+        key = f"{pid}/{cl}/raises/{type(e).__name__}/{mode}{ub}/{_desc_name(inp)}/{method}"
+        if mode == 'movie' and inp['bins'] and fl.get('tdesc', 'time') != 'time':
+            key = f'{pid}/f/movie/bins/second-time-descriptor/raises/{type(e).__name__}'
+        elif mode == 'movie' and len(inp['x3'][0][0]) == 1:
             key = f'{pid}/f/movie/n_channel=1/raises/{type(e).__name__}'
+        elif mode == 'list' and unbal and set(inp['lab']) != set(inp['lab2']):
+            key = f'{pid}/d/list/unbalanced/different-condition-sets/raises/{type(e).__name__}'
         return [(key, f'{type(e).__name__} raised inside the documented contract: {str(e)[:160]}', {})]
     problems = []
     n = len(out['lab'])
@@ -511,6 +685,10 @@ def check_vector(vec, fl, pid='C01', *, diagnose=True):
         return [(f'{pid}/b/labels/missing/{mode}', 'condition descriptor missing from pattern_descriptors',
                  {'pd': list(got['pd'])})]
     G = [_norm(v) for v in got['pd'][COND]]
+    if mode == 'list' and unbal and set(inp['lab']) != set(inp['lab2']) and (len(G) != n or sorted(map(repr, G)) != sorted(map(repr, L))):
+        return [(f'{pid}/d/list/unbalanced/different-condition-sets/mislabelled',
+                 'calc_rdm_unbalanced stacks the RDMs of datasets with different condition sets with concat: the labels '
+                 'of the first dataset are attached to the RDM of the second', {'labels': G, 'expected': L})]
     if got['n_cond'] != n or len(G) != n:
         return [(f'{pid}/b/rows/{mode}/{_desc_name(inp)}',
                  f'{got["n_cond"]} rows/columns for {n} expected (one per distinct label)', {'labels': G})]
@@ -538,7 +716,7 @@ def check_vector(vec, fl, pid='C01', *, diagnose=True):
             order = [subj.index(3), subj.index(5)]
     elif mode == 'movie':
         times = [float(Fraction(int(t[0]), int(t[1]))) for t in out['time']]
-        gt = [float(v) for v in got['rd'].get('time', [])]
+        gt = [float(v) for v in got['rd'].get(fl.get('tdesc', 'time'), [])]
         if len(gt) != nr or sorted(np.round(gt, 9)) != sorted(np.round(times, 9)):
             problems.append((f'{pid}/f/time', 'time descriptor of the movie differs from the (binned) time points',
                              {'got': gt, 'expected': times}))
@@ -569,7 +747,7 @@ def check_vector(vec, fl, pid='C01', *, diagnose=True):
             if np.isnan(e) != np.isnan(g) or (not np.isnan(e) and abs(g - e) > tol):
                 bad.append((r, k))
     if bad:
-        key = f'{pid}/{cl}/value/{method}/{mode}/{_desc_name(inp)}'
+        key = f'{pid}/{cl}/value/{method}/{mode}{ub}/{_desc_name(inp)}'
         what = 'value differs from the formula on the condition means'
         if diagnose:
             key, what = _diagnose(vec, fl, pid, key, what, gotmat, exp, undef, tol)
@@ -726,6 +904,67 @@ def _magnitude_ok(inp):
     return worst < INT31
 
 
+def _cv_design(rng, foldsrc, conds=None):
+    """a shuffled fold-balanced design (labels, folds): 2-3 conditions out of 1..5, 2-3 folds, 1-2 repetitions"""
+    nc = int(rng.integers(2, 4))
+    if conds is None:
+        conds = sorted(rng.choice(np.arange(1, 6), size=nc, replace=False).tolist())
+    nf = int(rng.integers(2, 4))
+    if foldsrc == 'default':
+        folds, reps = list(range(1, nf + 1)), {c: 1 for c in conds}
+    else:
+        folds = sorted(rng.choice(np.arange(1, 5), size=nf, replace=False).tolist())
+        reps = {c: int(rng.integers(1, 3)) for c in conds}
+    rows = [(c, f) for c in conds for f in folds for _ in range(reps[c])]
+    rng.shuffle(rows)
+    lab = [int(r[0]) for r in rows]
+    fold = [int(r[1]) for r in rows] if foldsrc == 'explicit' else []
+    return lab, fold
+
+
+def _gen_extended(rng, mode):
+    """movies and lists of datasets for the cross-validated estimators and for calc_rdm_unbalanced (exact kinds)"""
+    variant = int(rng.integers(4))
+    unbal = variant >= 2
+    method = ['crossnobis', 'poisson_cv', 'crossnobis', ['euclidean', 'mahalanobis'][int(rng.integers(2))]][variant]
+    foldsrc = ['explicit', 'default'][int(rng.integers(2))] if method in CV_METHODS else 'none'
+    P = int(rng.integers(1, 3)) if mode == 'listx' else 2
+    lo, hi = (0, 4) if method == 'poisson_cv' else (-2, 3)
+    prec = _rand_spd(rng, P) if method in ('crossnobis', 'mahalanobis') and rng.integers(3) == 0 else []
+    base = dict(method=method, rm=False, prec=prec, prior=PRIORS[rng.integers(len(PRIORS))] if method == 'poisson_cv' else PRIORS[0],
+                useDesc=True, unbal=unbal, foldsrc=foldsrc, fprec=[])
+    lab, fold = _cv_design(rng, foldsrc if foldsrc != 'none' else 'explicit')
+    if foldsrc == 'none':
+        fold = []
+    if len(lab) > 12:
+        return None
+    if mode == 'listx':
+        # the second dataset has its own condition set (overlapping or not); calc_rdm_unbalanced can only stack equal sets
+        lab2, fold2 = _cv_design(rng, foldsrc if foldsrc != 'none' else 'explicit', conds=sorted(set(lab)) if unbal else None)
+        if foldsrc == 'none':
+            fold2 = []
+        if len(lab2) > 12:
+            return None
+        return dict(base, mode='list', lab=lab, fold=fold, x=rng.integers(lo, hi, size=(len(lab), P)).tolist(),
+                    ext=[_grp_of(k) for k in lab], lab2=lab2, fold2=fold2, x2=rng.integers(lo, hi, size=(len(lab2), P)).tolist(),
+                    ext2=[_grp_of(k) for k in lab2], prec2=prec)
+    nt = int(rng.integers(2, 4))
+    tv = [int(v) for v in rng.permutation(rng.choice(np.arange(0, 60), size=nt, replace=False))]
+    bins = []
+    if rng.integers(2):
+        perm = [int(v) + 1 for v in rng.permutation(nt)]
+        cut = int(rng.integers(1, nt)) if nt > 1 else 1
+        bins = [sorted(perm[:cut]), sorted(perm[cut:])] if (rng.integers(2) and perm[cut:]) else [sorted(perm[:max(cut, 2)])]
+    bt = [Fraction(sum(tv[t - 1] for t in b), len(b)) for b in bins]
+    if len(set(bt)) != len(bt):
+        return None
+    inp = dict(base, mode='movie', lab=lab, fold=fold, x3=rng.integers(lo, hi, size=(nt, len(lab), P)).tolist(),
+               ext=rng.integers(1, 3, size=len(lab)).tolist(), bins=bins, tv=tv)
+    if method == 'crossnobis' and not unbal and not prec and foldsrc == 'explicit' and rng.integers(2):
+        inp['fprec'] = [[int(v) for v in rng.integers(1, 4, size=P)] for _ in range(max(fold))]
+    return inp
+
+
 def gen_input(rng, mode):
     """a random abstract input on the integer grid, larger than the exhaustively enumerated domain;
     None if the draw fell outside the generator constraints (counted by the caller)"""
@@ -736,9 +975,11 @@ def gen_input(rng, mode):
         lab = [int(c) for c in conds for _ in range(reps)]
         rng.shuffle(lab)
         inp = dict(mode='cv', method='crossnobis', rm=bool(rng.integers(2)), prec=[], prior=PRIORS[0], useDesc=True,
-                   lab=lab, x=rng.integers(-2, 3, size=(len(lab), P)).tolist(), fold=[], foldsrc='default', fprec=[])
+                   unbal=False, lab=lab, x=rng.integers(-2, 3, size=(len(lab), P)).tolist(), fold=[], foldsrc='default', fprec=[])
         inp['fold'] = _fold_of(inp)
         return inp
+    if mode in ('moviex', 'listx'):
+        return _gen_extended(rng, mode)
     if mode == 'cv':
         nc = int(rng.integers(2, 5))
         nf = int(rng.integers(2, 5))
@@ -763,7 +1004,7 @@ def gen_input(rng, mode):
         kind = int(rng.integers(3)) if method == 'crossnobis' else 0
         inp = dict(mode='cv', method=method, rm=bool(rng.integers(2)) if method == 'crossnobis' else False,
                    prec=_rand_spd(rng, P) if kind == 1 else [], prior=PRIORS[rng.integers(len(PRIORS))] if method == 'poisson_cv' else PRIORS[0],
-                   useDesc=True, lab=lab, x=x, fold=fold, foldsrc=foldsrc,
+                   useDesc=True, unbal=False, lab=lab, x=x, fold=fold, foldsrc=foldsrc,
                    fprec=[[int(v) for v in rng.integers(1, 4, size=P)] for _ in range(max(folds))] if kind == 2 else [])
         if foldsrc == 'default':
             inp['fold'] = _fold_of(inp)
@@ -775,7 +1016,8 @@ def gen_input(rng, mode):
     lo, hi = (0, 5) if method == 'poisson' else ((-2, 3) if method == 'correlation' else (-3, 4))
     base = dict(mode=mode, method=method, rm=bool(rng.integers(2)) if method in ('euclidean', 'mahalanobis') and mode != 'movie' else False,
                 prec=_rand_spd(rng, P) if method == 'mahalanobis' and rng.integers(4) > 0 else [],
-                prior=PRIORS[rng.integers(len(PRIORS))] if method == 'poisson' else PRIORS[0], useDesc=use_desc)
+                prior=PRIORS[rng.integers(len(PRIORS))] if method == 'poisson' else PRIORS[0], useDesc=use_desc,
+                unbal=False, foldsrc='none', fold=[], fprec=[])
 
     def labels(n):
         for nlab in rng.permutation(np.arange(2, 5)):
@@ -802,7 +1044,7 @@ def gen_input(rng, mode):
             n2 = n1
         inp = dict(base, lab=lab, x=rng.integers(lo, hi, size=(n1, P)).tolist(), ext=[_grp_of(k) for k in lab],
                    lab2=lab2, x2=rng.integers(lo, hi, size=(n2, P)).tolist(), ext2=[_grp_of(k) for k in lab2],
-                   prec2=base['prec'] if rng.integers(2) or not base['prec'] else _rand_spd(rng, P))
+                   prec2=base['prec'] if rng.integers(2) or not base['prec'] else _rand_spd(rng, P), fold2=[])
     else:
         n = int(rng.integers(4, 7))
         nt = int(rng.integers(3, 5))
@@ -885,7 +1127,7 @@ def record_trace(seed, mode):
         return ('skip', 'generator constraints')
     fl = flavour(rng)
     fl['dtype'] = ['float64', 'int64'][rng.integers(2)]
-    fl['wrap'] = False
+    fl.update(wrap=False, tdesc='time', window=False)
     if mode == 'cvmany':
         fl['lab'] = variant or 'str'
         fl['class'] = 'cvmany'
@@ -903,7 +1145,7 @@ def finish_poisson(inp, logged, fvec, accept):
     lab_s = accept['lab']                       # row order of the specification
     n = len(lab_s)
     if inp['method'] == 'poisson_cv':
-        o = {'lab': lab_s, 'pairs': accept['pairs'], 'rdms': [{'rates': accept['rates'][0], 'vec': []}]}
+        o = {'lab': lab_s, 'rdms': [{'rates': rt, 'pairs': pr, 'vec': []} for rt, pr in zip(accept['rates'], accept['pairs'])]}
     else:
         o = {'lab': lab_s, 'rdms': [{'rates': rt, 'vec': []} for rt in accept['rates']]}
     exp, _ = expected_values(inp, o)
@@ -928,6 +1170,8 @@ def float_case(vec, rng, pid='C01'):
     out = vec['out']
     method = inp['method']
     pos = method in ('poisson', 'poisson_cv')
+    if inp['mode'] == 'list' and inp.get('unbal') and set(inp['lab']) != set(inp['lab2']):
+        return []        # calc_rdm_unbalanced cannot stack different condition sets: reported by the exact tier
 
     def rnd(shape):
         a = rng.gamma(2.0, 1.5, size=shape) if pos else rng.normal(0, 2, size=shape)
@@ -951,7 +1195,7 @@ def float_case(vec, rng, pid='C01'):
     if inp['mode'] == 'list' and vec['in']['prec'] == vec['in']['prec2']:
         inp['prec2'] = inp['prec']
     fl = flavour(rng)
-    fl.update(dtype='float64', scale=1, wrap=False)
+    fl.update(dtype='float64', scale=1, wrap=False, tdesc='time', window=False)
     fprec = None
     if inp['mode'] == 'cv' and inp['fprec']:
         # general SPD precision per fold (the exact tier has diagonal ones)
